@@ -682,7 +682,7 @@ def r6(ctx):
         # lookup is a second, unsound prefilter: Pattern::potential_kinds may name anonymous token kinds, e.g. for `pass`/`debugger`)
         if gets:
             from ..query import path_avoiding
-            dfs_next = [c for c in nexts if "slice::iter::Iter" not in c.best and scan.dominates(c.bb, gets[0].bb)]
+            dfs_next = [c for c in nexts if "slice::iter::Iter" not in c.best and scan.dominates(c.bb, gets[0].bb) and gets[0].bb in loop_of(scan, c.bb)]
             ctx.ob("R6", "CombinedScan::scan/traversal loop found", bool(dfs_next), "the loop whose next() dominates the kind lookup", where=scan.loc())
             for c in dfs_next[-1:]:
                 arms = option_arms(scan, c)
